@@ -22,6 +22,9 @@ LEVEL = "other"
 TOP = ("_parse_translation_unit_or_empty", ())
 
 
+SPEC_NTS = {"declaration_specifiers", "param_specifiers", "member_specifiers", "type_core"}
+
+
 def sentences(ref: RG.Ref, per_nt, depth):
     """Yield (key, key2, description, token tuple).  Keys identify the reference construct (they depend only on the reference).
 
@@ -61,6 +64,17 @@ def sentences(ref: RG.Ref, per_nt, depth):
                     sent = pre + ref.expand_min(w2) + suf
                     if True:
                         yield (f"{name}/{ai}/{lab}", k2, f"{name} alt {ai} {lab!r} with {k2}", sent)
+                # adjacent siblings: each variant of a child together with each possible first token of the next child
+                ph = [i for i, t in enumerate(w) if isinstance(t, tuple)]
+                for a_, b_ in zip(ph, ph[1:]):
+                    ca, cb = w[a_][1], w[b_][1]
+                    # specifier lists carry state (saw_type, the last type specifier) into the decision about the following
+                    # declarator: follow their unit chains so that every kind of type core meets every declarator start
+                    deep = ca in SPEC_NTS
+                    for clab, cw in (ref.deep_variants(ca) if deep else [(f"{ca}/{cai}/{cl}", cw_) for cai, calt in enumerate(ref.rules[ca]) for cl, cw_ in ref.variants(calt)]):
+                        for tok, fw in sorted(fm[cb].items()):
+                            sent = pre + ref.expand_min(w[:a_]) + ref.expand_min(cw) + ref.expand_min(w[a_ + 1:b_]) + fw + ref.expand_min(w[b_ + 1:]) + suf
+                            yield (f"{name}/{ai}/{lab}", f"{clab} && {cb}^{tok}", f"{name} alt {ai} {lab!r} with its {ca} as {clab!r} followed by a {cb} starting with {tok}", sent)
                 # first-token coverage of every child position
                 for i, t in enumerate(w):
                     if isinstance(t, tuple):
@@ -167,7 +181,7 @@ def check(ctx):
 
     # ---- R-C01.3 -------------------------------------------------------------------------
     ref = RG.Ref()
-    unknown_terms = ref.terminals - emittable
+    unknown_terms = ref.terminals - emittable - {"_ATOMIC_Q"}
     if unknown_terms:
         raise AnalysisError(f"reference grammar uses token types the lexer tables do not know: {sorted(unknown_terms)}")
     rec = GR.Recognizer(g)
@@ -177,13 +191,20 @@ def check(ctx):
     cache = {}
     fails_single = {}
     fails_pair = []
+    start_stats = {}
     for k1, k2, desc, sent in sentences(ref, per_nt, depth):
+        sent = RG.finish(sent)
+        if sent is None:
+            continue
         ok = cache.get(sent)
         if ok is None:
             ok = cache[sent] = rec.accepts(TOP, sent)
             n += 1
             ctx.oblige("R-C01.3", " ".join(sent), ok, nontrivial=True,
-                       sample={"rule": "R-C01.3", "reference construct": desc, "sentence": " ".join(sent), "verdict": "accepted by the model" if ok else "REJECTED"} if (n % 600 == 0 or (not ok and len(ctx.samples) < 30)) else None)
+                       sample={"rule": "R-C01.3", "reference construct": desc, "sentence": " ".join(sent), "verdict": "accepted by the model" if ok else "REJECTED"} if (n % 1500 == 0 or (not ok and len(ctx.samples) < 30)) else None)
+        if k2 is not None and "^" in k2 and " && " not in k2:
+            st_ = start_stats.setdefault(k2, [0, 0])
+            st_[0 if not ok else 1] += 1
         if ok:
             continue
         if k2 is None:
@@ -196,12 +217,26 @@ def check(ctx):
     for k1, (desc, sent) in sorted(fails_single.items()):
         ctx.violation("R-C01.3", f"missing:{k1}", f"valid construct not accepted - {desc}: token sequence `{' '.join(sent)}` is derivable from the C99/C11 reference grammar but no path of the parser model consumes it",
                       file=px.rel, function="CParser (grammar model)", construct=" ".join(sent))
+    root_start = {f for f, (nf, np_) in start_stats.items() if nf and not np_}
+    simple_fail = {(k1, k2.split(">")[0]) for k1, k2, _, _ in fails_pair if " && " not in k2}
     groups = {}
     for k1, k2, desc, sent in fails_pair:
         base2 = k2.split(">")[0]
-        if k1 in fails_single or ("^" not in base2 and base2 in fails_single):
+        if k1 in fails_single:
             continue     # explained by a construct that fails on its own
-        gk = ("start:" + base2) if "^" in base2 else (k1.split("/")[0] + "+" + base2)
+        if " && " in base2:
+            var, start = base2.split(" && ", 1)
+            chain = var.split(">")
+            if (any(c in fails_single for c in chain) or start in root_start or (k1, start) in simple_fail or (k1, var) in simple_fail
+                    or any((a, b) in simple_fail for a, b in zip(chain, chain[1:])) or (chain[-1], start) in simple_fail):
+                continue
+            gk = k1.split("/")[0] + "+" + "/".join(var.split(">")[-1].split("/")[:2]) + "&" + start
+        elif "^" in base2:
+            gk = "start:" + base2
+        else:
+            if base2 in fails_single:
+                continue
+            gk = k1.split("/")[0] + "+" + base2
         cur = groups.get(gk)
         if cur is None or len(sent) < len(cur[1]):
             groups[gk] = (desc, sent, (cur[2] if cur else 0) + 1)
